@@ -13,6 +13,7 @@ pub mod c10;
 pub mod c11;
 pub mod c12;
 pub mod c13;
+pub mod c14;
 pub mod c18;
 pub mod c19;
 
@@ -29,6 +30,7 @@ pub fn run(prop: &str, args: &Args) -> i32 {
         "C11" => c11::run(args),
         "C12" => c12::run(args),
         "C13" => c13::run(args),
+        "C14" => c14::run(args),
         "C18" => c18::run(args),
         "C19" => c19::run(args),
         _ => {
